@@ -239,6 +239,13 @@ def jobs(tier, seed=0):
       lambda **k: make_shared(2, dcor, timeout="default", data_width=32, address_width=32, **k))
     B("AXIShared 3x2 default timeout_cycles register=True/32b [%s]" % wcor,
       lambda **k: make_shared(3, dcor, full=True, timeout="default", register=True, data_width=32, address_width=32, **k))
+    # small finite bus timeouts on a HEALTHY bus (every slave stall shorter than the timeout; back-to-back reads and
+    # writes keep ARVALID/AWVALID high far longer than the timeout): the watchdog must never fire — no SLVERR, every
+    # accepted request at its slave (the model has no Timeout: any firing is also a correspondence break)
+    for (t, full) in ((4, False), (8, False), (16, False), (8, True)):
+        B("%sShared 3x2 timeout_cycles=%d healthy bus/32b [%s]" % (X._tag(full), t, wcor),
+          lambda t=t, full=full, **k: make_shared(3, dcor, full=full, timeout=t, data_width=32, address_width=32,
+                                                  env_kw={"max_stall": t - 2}, **k))
     B("AXILiteCrossbar 2x2 register=True/32b [%s]" % wcor,
       lambda **k: make_xbar(2, dcor, register=True, data_width=32, address_width=32, **k))
     # data widths 16 and 128 (byte -> word shifts 1 and 4), masters with different address widths (bus = the widest)
@@ -416,7 +423,7 @@ def _make_from_spec(spec):
         if spec.get("m_address_widths"):
             kw["m_address_widths"] = spec["m_address_widths"]
     if kind == "shared":
-        return make_shared(spec["n"], decs, **kw)
+        return make_shared(spec["n"], decs, timeout=spec.get("timeout", "none"), **kw)
     if kind == "xbar":
         return make_xbar(spec["n"], decs, **kw)
     if kind == "arb":
@@ -702,7 +709,8 @@ def search(ctx, disagreements, proof_info):
 def _spec_of(inst):
     return {"kind": inst.kind, "n": inst.n, "decs": [d.word() for d in inst.decs], "full": inst.full,
             "data_width": inst.data_width, "address_width": inst.address_width, "domain": inst.domain,
-            "m_address_widths": inst.m_address_widths, "id_width": inst.id_width}
+            "m_address_widths": inst.m_address_widths, "id_width": inst.id_width,
+            "timeout": getattr(inst, "timeout", "none")}
 
 
 # ---------------------------------------------------------------------------------------------------------
